@@ -33,6 +33,61 @@ CAT_H = [coll("c1", 101, ["sa_101v0"], ["ta_901v0"], 901),
          coll("c3", 103, ["sa_103v0"], ["tb_903v0"], 903)]
 
 
+# the same placements with ADVERSARIAL ids: every downstream collection id equals the source id of another collection
+# (and the partition ids collide likewise): 101 -> 102, 102 -> 103, 103 -> 101
+CAT_X_IDC = [coll("c1", 101, ["sa_101v0", "sb_101v1"], ["ta_901v0", "tb_901v1"], 102),
+             coll("c2", 102, ["sa_102v0"], ["tb_902v0"], 103),
+             coll("c3", 103, ["sb_103v0"], ["ta_903v0"], 101)]
+# PipeRoute_MC CollsZ: crossed placement c1 sa->tb, c2 sb->ta, c3 sa->ta (forwarded)
+CAT_Z = [coll("c1", 101, ["sa_101v0"], ["tb_901v0"], 901),
+         coll("c2", 102, ["sb_102v0"], ["ta_902v0"], 902),
+         coll("c3", 103, ["sa_103v0"], ["ta_903v0"], 903)]
+# ... with the SAME physical channel names on both clusters (the default of two Milvus clusters): sa = ta = dml_0,
+# sb = tb = dml_1; plan steps are renamed with rename_same()
+CAT_Z_SAME = [coll("c1", 101, ["dml_0_101v0"], ["dml_1_901v0"], 901),
+              coll("c2", 102, ["dml_1_102v0"], ["dml_0_902v0"], 902),
+              coll("c3", 103, ["dml_0_103v0"], ["dml_0_903v0"], 903)]
+
+
+def rename_same(steps):
+    """plan steps of the CollsZ model (streams sa_*, sb_*) for CAT_Z_SAME"""
+    import json
+    t = json.dumps(steps).replace("sa_", "dml_0_").replace("sb_", "dml_1_").replace('"sa"', '"dml_0"').replace('"sb"', '"dml_1"')
+    return json.loads(t)
+
+
+def route_sources(P):
+    """plan sources shared by C01 and C02 (P(cat, tt) builds the params)"""
+    return [
+        dict(name="xs", module="PipeRoute_MC", cfg="PipeRoute_PlanXs.cfg", cap={"quick": 300}, params=P(CAT_X), workers=8),
+        dict(name="h", module="PipeRoute_MC", cfg="PipeRoute_PlanH.cfg", cap={"quick": 120}, params=P(CAT_H), workers=8),
+        dict(name="x", module="PipeRoute_MC", cfg="PipeRoute_PlanX.cfg", simulate={"quick": 60, "thorough": 1500}, depth=100,
+             cap={"quick": 150, "thorough": 6000}, params=P(CAT_X)),
+        dict(name="xsw", module="PipeRoute_MC", cfg="PipeRoute_PlanX.cfg", simulate={"quick": 30, "thorough": 500}, depth=100,
+             cap={"quick": 80, "thorough": 2000}, params=P(CAT_X, 3600000)),
+        # a collection dropped in the middle (drop-collection message on all its shards) while the others go on
+        dict(name="xd", module="PipeRoute_MC", cfg="PipeRoute_PlanXd.cfg", simulate={"quick": 60, "thorough": 1500}, depth=100,
+             cap={"quick": 120, "thorough": 4000}, params=P(CAT_X)),
+        # crossed placement, exhaustive
+        dict(name="z", module="PipeRoute_MC", cfg="PipeRoute_PlanZ.cfg", cap={"quick": 120}, params=P(CAT_Z), workers=8),
+    ]
+
+
+def route_variants(plans, tier):
+    """catalog variants of the TLC plans: adversarial ids (CAT_X_IDC) and equal channel names on both clusters (CAT_Z_SAME)"""
+    out = []
+    for i, p in enumerate(plans):
+        out.append(p)
+        src = p.get("src")
+        if src in ("xs", "x", "xd") and (tier == "thorough" or src == "xd" or i % 3 == 0):
+            q = dict(p, plan=str(p["plan"]) + "-idc", params=dict(p["params"], catalog=CAT_X_IDC))
+            out.append(q)
+        if src == "z":
+            q = dict(p, plan=str(p["plan"]) + "-same", params=dict(p["params"], catalog=CAT_Z_SAME), steps=rename_same(p["steps"]))
+            out.append(q)
+    return out
+
+
 # PipeDrop_MC: one collection with two / three shards on distinct pchannels (no forwarding)
 CAT_D2 = [coll("c1", 101, ["sa_101v0", "sb_101v1"], ["ta_901v0", "tb_901v1"], 901)]
 CAT_D3 = [coll("c1", 101, ["sa_101v0", "sb_101v1", "sc_101v2"], ["ta_901v0", "tb_901v1", "tc_901v2"], 901)]
